@@ -1,9 +1,12 @@
 """property id -> check function(prop, tier, replay) -> exit code"""
-from . import router, reg, selector, framing, rpc
+from . import router, reg, selector, framing, rpc, transcode
 
 CHECKS = {
     "C01": router.run,
     "C02": router.run,
+    "C03": transcode.run,
+    "C04": transcode.run,
+    "C07": transcode.run,
     "C05": rpc.run,
     "C06": rpc.run,
     "C08": rpc.run,
